@@ -1,5 +1,6 @@
 import HydroVerif.Proto
 import HydroVerif.Model.C04
+import HydroVerif.Model.C01
 open HydroVerif HydroVerif.C04
 
 /-- entries that are not finite are "null" (the code filters with `np.isfinite`) -/
@@ -18,8 +19,143 @@ def fmtO : Option Float → String
 def fmtNatMat (rows : List (List Nat)) : String :=
   "[" ++ ";".intercalate (rows.map fun r => ",".intercalate (r.map toString)) ++ "]"
 
+/-- `trans.forward` on one value, from the transform model of C01/C02 (`Identity`, `Log:nu`, `BoxCox2:nu:lam`,
+`Reciprocal:nu`, `Sinh:nu:scale`); a NaN value is `none` -/
+def transOf (s : String) : Option (Float → Option Float) :=
+  let norm (g : Float → Option Float) : Float → Option Float := fun x => (g x).bind optNaN
+  match s.splitOn ":" with
+  | ["Identity"] => some (norm (C01.Identity.forward ({} : C01.Identity.Params Float)))
+  | ["Log", nu] => (floatTok? nu).map fun nu => norm (C01.Log.forward { nu := nu, base := none, mininu := 1e-10 })
+  | ["BoxCox2", nu, lam] =>
+    match floatTok? nu, floatTok? lam with
+    | some nu, some lam => some (norm (C01.BoxCox2.forward { nu := nu, lam := lam, mininu := 1e-10 }))
+    | _, _ => none
+  | ["Reciprocal", nu] => (floatTok? nu).map fun nu => norm (C01.Reciprocal.forward { nu := nu, mininu := 1e-10 })
+  | ["Sinh", nu, sc] =>
+    match floatTok? nu, floatTok? sc with
+    | some nu, some sc => some (norm (C01.Sinh.forward { nu := nu, scale := sc }))
+    | _, _ => none
+  | _ => none
+
+def fmtRes : Res Float → String
+  | .value v => if v.isNaN then "nan" else "value " ++ hexOfFloat v
+  | .nan => "nan"
+  | .errShape => "err shape"
+  | .errNoValid => "err novalid"
+  | .errType => "err type"
+  | .errStat => "err stat"
+
+def biasTypeOf (s : String) : Option BiasType :=
+  if s = "standard" then some .standard else if s = "normalised" then some .normalised
+  else if s = "log" then some .log else none
+
+def corrTypeOf (s : String) : Option CorrType :=
+  if s = "Pearson" then some .pearson else if s = "Spearman" then some .spearman
+  else if s = "censored" then some .censored else none
+
+def fmtTable (t : Table) : String := s!"{fmtIntList t.1} {fmtIntList t.2.1} {fmtNatMat t.2.2}"
+
+def hopOf (s : String) : Option HOp :=
+  match s.splitOn ":" with
+  | ["S", obs, sim, ncat] =>
+    match parseIntList? obs, parseIntList? sim with
+    | some obs, some sim => some (.score obs sim ncat.toNat?)
+    | _, _ => none
+  | ["E", k, i, j, v] =>
+    match k.toNat?, i.toNat?, j.toNat?, v.toNat? with
+    | some k, some i, some j, some v => some (.setCell k i j v)
+    | _, _, _, _ => none
+  | ["F", k, v] =>
+    match k.toNat?, v.toNat? with
+    | some k, some v => some (.fill k v)
+    | _, _ => none
+  | _ => none
+
+def fmtBin : BinRes Float → String
+  | .errShape => "err shape"
+  | .errZeroDiv => "err zerodiv"
+  | .ok b =>
+    let mcc := b.mccNum / Float.sqrt b.mccDen2
+    let lor := if b.lorDefined then Float.log b.theta else (0.0/0.0)
+    let orss := match b.orss with | some v => v | none => (0.0/0.0)
+    " ".intercalate ([b.bias, b.hitrate, b.precision, b.falsealarm, b.accuracy, b.f1, mcc, lor, orss].map hexOfFloat)
+
+/-- rounding to single precision: `Rnd Float r32` is float32 arithmetic (every operation is computed in double, which holds
+the exact sum / product / correctly rounded quotient of two singles to more than twice their precision, then rounded) -/
+def r32 (x : Float) : Float := x.toFloat32.toFloat
+def toR32 (x : Float) : Rnd Float r32 := ⟨r32 x⟩
+
 def handle (toks : List String) : String :=
   match toks with
+  | ["nse32", o, s] =>
+    match parseFloatList? o, parseFloatList? s with
+    | some o, some s => hexOfFloat (nse (o.map toR32) (s.map toR32)).val
+    | _, _ => "bad-op"
+  | ["kge32", eps, o, s] =>
+    match floatTok? eps, parseFloatList? o, parseFloatList? s with
+    | some eps, some o, some s => fmtO ((kge (toR32 eps) (o.map toR32) (s.map toR32)).map fun v => v.val)
+    | _, _, _ => "bad-op"
+  | ["bias32", ty, eps, o, s] =>
+    match floatTok? eps, parseFloatList? o, parseFloatList? s with
+    | some eps, some o, some s =>
+      let r := if ty = "std" then biasStd (toR32 eps) (o.map toR32) (s.map toR32)
+        else biasNorm (toR32 eps) (o.map toR32) (s.map toR32)
+      fmtO (r.map fun v => v.val)
+    | _, _, _ => "bad-op"
+  | ["binary32", tn, fp, fn, tp] =>
+    match floatTok? tn, floatTok? fp, floatTok? fn, floatTok? tp with
+    | some tn, some fp, some fn, some tp =>
+      let b := binary (toR32 tn) (toR32 fp) (toR32 fn) (toR32 tp)
+      let orss := match b.orss with | some v => v.val | none => (0.0/0.0)
+      " ".intercalate ([b.hitrate.val, b.falsealarm.val, b.precision.val, orss].map hexOfFloat)
+    | _, _, _, _ => "bad-op"
+  | "hist" :: ops =>
+    match allSome (ops.map hopOf) with
+    | some ops => " ".intercalate (fmtNatList (untouched ops) :: (hrun ops).map fmtTable)
+    | none => "bad-op"
+  | ["biasfull", ty, eps, tr, excl, o, s] =>
+    match floatTok? eps, transOf tr, parseFloatList? o, parseFloatList? s with
+    | some eps, some f, some o, some s =>
+      fmtRes (biasFull (fun x : Float => x.isFinite) eps f (biasTypeOf ty) (excl == "1") (o.map optNaN) (s.map optNaN))
+    | _, _, _, _ => "bad-op"
+  | ["nsefull", tr, excl, o, s] =>
+    match transOf tr, parseFloatList? o, parseFloatList? s with
+    | some f, some o, some s =>
+      fmtRes (nseFull (fun x : Float => x.isFinite) f (excl == "1") (o.map optNaN) (s.map optNaN))
+    | _, _, _ => "bad-op"
+  | ["kgefull", eps, tr, excl, o, s] =>
+    match floatTok? eps, transOf tr, parseFloatList? o, parseFloatList? s with
+    | some eps, some f, some o, some s =>
+      fmtRes (kgeFull (fun x : Float => x.isFinite) eps f (excl == "1") (o.map optNaN) (s.map optNaN))
+    | _, _, _, _ => "bad-op"
+  | ["corrraw", eps, tr, ty, st, excl, o, ens] =>
+    match floatTok? eps, transOf tr, parseFloatList? o, parseFloatMat? ens with
+    | some eps, some f, some o, some ens =>
+      fmtRes (corrRaw (fun x : Float => x.isFinite) Float.isNaN eps f (corrTypeOf ty) (statOf st) (excl == "1")
+        (o.map optNaN) (ens.map fun r => r.map optNaN))
+    | _, _, _, _ => "bad-op"
+  | ["exclremoved", eps, tr, o, s] =>
+    -- the statement of biasFull_excl / nseFull_excl / kgeFull_excl on this input: the removed series, then each score with
+    -- excludenull on the full series and without excludenull on the removed series
+    match floatTok? eps, transOf tr, parseFloatList? o, parseFloatList? s with
+    | some eps, some f, some o, some s =>
+      let fin := fun x : Float => x.isFinite
+      let (o, s) := (o.map optNaN, s.map optNaN)
+      let R := removedRaw fin f o s
+      let raw (l : List (Option Float)) : String := fmtFloatList (l.map fun x => match x with | some v => v | none => 0.0/0.0)
+      " | ".intercalate [raw R.1, raw R.2,
+        fmtRes (biasFull fin eps f (some .standard) true o s), fmtRes (biasFull fin eps f (some .standard) false R.1 R.2),
+        fmtRes (nseFull fin f true o s), fmtRes (nseFull fin f false R.1 R.2),
+        fmtRes (kgeFull fin eps f true o s), fmtRes (kgeFull fin eps f false R.1 R.2)]
+    | _, _, _, _ => "bad-op"
+  | ["binaryof", t] =>
+    match parseFloatMat? t with
+    | some t => fmtBin (binaryOf t)
+    | none => "bad-op"
+  | ["binseries", o, s] =>
+    match parseIntList? o, parseIntList? s with
+    | some o, some s => fmtBin (binarySeries o s)
+    | _, _ => "bad-op"
   | ["bias", ty, eps, o, s] =>
     match floatTok? eps, parseFloatList? o, parseFloatList? s with
     | some eps, some o, some s =>
@@ -57,12 +193,12 @@ def handle (toks : List String) : String :=
     | _, _, _ => "bad-op"
   | ["ensstat", st, row] =>
     match statOf st, parseFloatList? row with
-    | some st, some row => fmtO ((ensStat st (row.map optNaN)).bind optNaN)   -- inf - inf: a NaN value is NaN
+    | some st, some row => fmtO (nanOpt Float.isNaN (ensStat st (row.map optNaN)))   -- inf - inf: a NaN value is NaN
     | _, _ => "bad-op"
   | ["corrfull", eps, ty, st, excl, tobs, tens] =>
     match floatTok? eps, statOf st, parseFloatList? tobs, parseFloatMat? tens with
     | some eps, some st, some tobs, some tens =>
-      match corrFull (fun x : Float => x.isFinite) eps (ty == "Spearman") st (excl == "1")
+      match corrFull (fun x : Float => x.isFinite) Float.isNaN eps (ty == "Spearman") st (excl == "1")
           (tobs.map optNaN) (tens.map fun r => r.map optNaN) with
       | .value v => if v.isNaN then "none" else "some " ++ hexOfFloat v   -- a NaN value is the NaN result
       | .nan => "none"
